@@ -696,8 +696,8 @@ class FileDomain(NormDomain):
                 return Const(v.size * (v.dtype.size if v.dtype else 8))
             if name == 'itemsize':
                 return Const(v.dtype.size if v.dtype else 8)
-            if name == 'real':
-                return v
+            if name in ('real', 'imag'):
+                return self.np_array_fn(name, v, [v], {}, node)
             return None
         if isinstance(v, StructV):
             if name == 'size':
@@ -868,7 +868,7 @@ class FileDomain(NormDomain):
         if name in ('min', 'max', 'sum', 'mean', 'any', 'all', 'std', 'ptp', 'argmin', 'argmax', 'nonzero'):
             return self.call_ext('numpy.' + name, [v] + list(args), kwargs, node)
         if name in ('conj', 'conjugate'):
-            return v
+            return self.np_array_fn('conj', v, [v], {}, node)
         if name == 'dot' and args and isinstance(args[0], FArr):
             return self.matmul(v, args[0], node)
         if name == 'clip':
@@ -941,8 +941,50 @@ class FileDomain(NormDomain):
                     src.append((i - sh) % d_ if k in ax else i)
                 order.append(a.flat_index(src))
             return a.view(a.shape, order).__class__.of(a.shape, [a.boxes[k].v for k in order], a.dtype)
-        if tail == 'next_fast_len' and args and self._int(args[0]) is not None:
-            return None
+        if tail == 'next_fast_len' and args and self._int(args[0]) is not None and '.fft.' in dotted:
+            n = max(self._int(args[0]), 1)
+            while True:
+                k = n
+                for p_ in (2, 3, 5, 7, 11):
+                    while k % p_ == 0:
+                        k //= p_
+                if k == 1:
+                    return Const(n)
+                n += 1
+        if '.fft.' in dotted and tail in ('fft', 'ifft', 'fft2', 'ifft2') and args and isinstance(args[0], FArr):
+            a = args[0]
+            inverse = tail.startswith('i')
+            if tail in ('fft', 'ifft'):
+                n = kwargs.get('n', args[1] if len(args) > 1 else Const(None))
+                ax = self._int(kwargs.get('axis', args[2] if len(args) > 2 else Const(-1)))
+                sizes = [None if (isinstance(n, Const) and n.v is None) else self._int(n)]
+                axes = [ax]
+                if ax is None or (sizes[0] is None and not (isinstance(n, Const) and n.v is None)):
+                    return Unknown('fft size / axis that is not followed')
+            else:
+                sz = kwargs.get('s', args[1] if len(args) > 1 else Const(None))
+                axes = [-2, -1]
+                if isinstance(sz, Const) and sz.v is None:
+                    sizes = [None, None]
+                elif isinstance(sz, Tup) and len(sz.items) == 2 and all(self._int(x) is not None for x in sz.items):
+                    sizes = [self._int(x) for x in sz.items]
+                else:
+                    return Unknown('fft2 size that is not followed')
+                if a.ndim < 2 or 'axes' in kwargs or len(args) > 2:
+                    return Unknown('fft2 axes')
+            cur = a
+            for ax, n in zip(axes, sizes):
+                cur = self.dft_axis(cur, ax % cur.ndim, n, inverse, node)
+                if not isinstance(cur, FArr):
+                    return cur
+            return cur
+        if dotted in ('numpy.iscomplexobj', 'numpy.isrealobj') and args and isinstance(args[0], FArr):
+            dt = args[0].dtype
+            cplx = (dt is not None and dt.kind == 'c') or any(isinstance(x, Const) and isinstance(x.v, complex) for x in args[0].values()) or \
+                any(isinstance(x, Sym) and 'I' in x.r.atoms() for x in args[0].values())
+            if dt is None and not cplx and any(isinstance(x, Sym) for x in args[0].values()):
+                return Unknown('whether an array of symbolic samples is complex')
+            return Const(cplx if dotted.endswith('iscomplexobj') else not cplx)
         if np_take := (dotted == 'numpy.take' and len(args) >= 2 and isinstance(args[0], FArr)):
             ax = kwargs.get('axis', args[2] if len(args) > 2 else Const(None))
             idx = args[1]
@@ -1164,6 +1206,34 @@ class FileDomain(NormDomain):
             return [x for x in args if isinstance(x, (Junk, Unknown))][0]
         return NormDomain.call_ext(self, dotted, args, kwargs, node)
 
+    def dft_axis(self, a, ax, n, inverse, node):
+        """exact DFT along one axis (zero padded / cut to n) for lengths 1, 2 and 4, whose roots of unity are 1, -1, i, -i"""
+        N = a.shape[ax] if n is None else n
+        if N not in (1, 2, 4):
+            return Unknown('a DFT of length %d (only lengths 1, 2, 4 are evaluated exactly)' % N)
+        roots = {1: [1], 2: [1, -1], 4: [1, -1j, -1, 1j]}[N]
+        if inverse:
+            roots = [complex(r).conjugate() if isinstance(r, complex) else r for r in roots]
+        moved = a.axis_perm([k for k in range(a.ndim) if k != ax] + [ax])
+        lead = moved.shape[:-1]
+        L = moved.shape[-1]
+        out = []
+        for row in range(_size(lead)):
+            xs = [moved.boxes[row * L + j].v for j in range(min(L, N))] + [Const(0)] * max(0, N - L)
+            for k in range(N):
+                acc = Const(0)
+                for j, x in enumerate(xs):
+                    w = roots[(k * j) % N]
+                    term = x if w == 1 else self.cell_binop(ast.Mult(), x, Const(w), node)
+                    acc = self.cell_binop(ast.Add(), acc, term, node)
+                if inverse and N > 1:
+                    acc = self.cell_binop(ast.Div(), acc, Const(N), node)
+                out.append(acc)
+        res = FArr.of(lead + (N,), out, DType('c', 16))
+        back = list(range(a.ndim - 1))
+        back.insert(ax, a.ndim - 1)
+        return res.axis_perm(back)
+
     def matmul(self, a, b, node):
         it = self.interp
         A = a if a.ndim == 2 else a.view((1, a.size))
@@ -1368,6 +1438,33 @@ class FileDomain(NormDomain):
             vals = self._vals(a)
             if all(isinstance(x, Const) for x in vals):
                 return Const(sum(1 for x in vals if x.v))
+        if f in ('conj', 'conjugate'):
+            def cj(x):
+                if isinstance(x, (Junk, Unknown)) or is_nan(x):
+                    return x
+                if isinstance(x, Const):
+                    return Const(x.v.conjugate()) if isinstance(x.v, complex) else x
+                if isinstance(x, Sym):
+                    try:
+                        return self.lift(x.r.conj())
+                    except Exception:
+                        return Unknown('conj')
+                return Unknown('conj of %r' % (x,))
+            return FArr.of(a.shape, [cj(x) for x in self._vals(a)], a.dtype)
+        if f in ('real', 'imag'):
+            def part(x):
+                if isinstance(x, Sym):
+                    try:
+                        c = x.r.conj()
+                    except Exception:
+                        return Unknown(f)
+                    return self.lift((x.r + c) / 2) if f == 'real' else self.lift((x.r - c) / (self.R.I * 2))
+                if isinstance(x, Const) and isinstance(x.v, complex):
+                    return Const(x.v.real if f == 'real' else x.v.imag)
+                if isinstance(x, Const):
+                    return x if f == 'real' else Const(0)
+                return x
+            return FArr.of(a.shape, [part(x) for x in self._vals(a)])
         if f in ('abs', 'absolute', 'fabs', 'negative', 'sqrt', 'square'):
             def one(x):
                 if isinstance(x, (Junk, Unknown)) or is_nan(x):
